@@ -219,17 +219,33 @@ theorem pP_false_access (sub : Nat) (h : pP sub precAccess = false) : 15 ≤ sub
 theorem pM_false_ge (c : Expr) (h : pM c = false) : 15 ≤ c.prec := by
   cases c <;> first | exact pP_false_access _ h | simp [pM] at h
 
-theorem wf_A (e : Expr) (hwf : e.wf = true) : A e := by
+/-- argument lists: no `& &` pair -/
+def AArgs (args : Expr) : Prop := ampSafe (printArgs args) = true
+
+theorem wf_A_both (e : Expr) : (e.wf = true → A e) ∧ (e.wfArgs = true → AArgs e) := by
   induction e with
-  | ident n => exact ⟨rfl, fun h => by simp [printExpr, startsAmpU, isSym] at h⟩
-  | int neg l => cases neg <;> exact ⟨by simp [printExpr, ampSafe, badPair, isSym, sym], fun h => by simp [printExpr, startsAmpU, isSym, sym] at h⟩
-  | fix neg l => cases neg <;> exact ⟨by simp [printExpr, ampSafe, badPair, isSym, sym], fun h => by simp [printExpr, startsAmpU, isSym, sym] at h⟩
-  | bool v => exact ⟨rfl, fun h => by simp [printExpr, startsAmpU, isSym] at h⟩
-  | nil => exact ⟨rfl, fun h => by simp [printExpr, startsAmpU, isSym] at h⟩
-  | void => exact ⟨by decide, fun h => by simp [printExpr, startsAmpU, isSym, sym] at h⟩
+  | ident n =>
+    refine ⟨fun hwf => ?_, fun h => by simp [Expr.wfArgs] at h⟩
+    exact ⟨rfl, fun h => by simp [printExpr, startsAmpU, isSym] at h⟩
+  | int neg l =>
+    refine ⟨fun hwf => ?_, fun h => by simp [Expr.wfArgs] at h⟩
+    cases neg <;> exact ⟨by simp [printExpr, ampSafe, badPair, isSym, sym], fun h => by simp [printExpr, startsAmpU, isSym, sym] at h⟩
+  | fix neg l =>
+    refine ⟨fun hwf => ?_, fun h => by simp [Expr.wfArgs] at h⟩
+    cases neg <;> exact ⟨by simp [printExpr, ampSafe, badPair, isSym, sym], fun h => by simp [printExpr, startsAmpU, isSym, sym] at h⟩
+  | bool v =>
+    refine ⟨fun hwf => ?_, fun h => by simp [Expr.wfArgs] at h⟩
+    exact ⟨rfl, fun h => by simp [printExpr, startsAmpU, isSym] at h⟩
+  | nil =>
+    refine ⟨fun hwf => ?_, fun h => by simp [Expr.wfArgs] at h⟩
+    exact ⟨rfl, fun h => by simp [printExpr, startsAmpU, isSym] at h⟩
+  | void =>
+    refine ⟨fun hwf => ?_, fun h => by simp [Expr.wfArgs] at h⟩
+    exact ⟨by decide, fun h => by simp [printExpr, startsAmpU, isSym, sym] at h⟩
   | unary op c ih =>
+    refine ⟨fun hwf => ?_, fun h => by simp [Expr.wfArgs] at h⟩
     simp only [Expr.wf, Bool.and_eq_true] at hwf
-    have hd := A_doc (pP c.prec op.prec) c (ih hwf.1)
+    have hd := A_doc (pP c.prec op.prec) c (ih.1 hwf.1)
     have hno : isSym "&" (sym op.sym) = false := by cases op <;> decide
     rw [A, print_unary]
     refine ⟨ampSafe_cons _ _ ?_ (Or.inl hno), fun h => ?_⟩
@@ -238,8 +254,9 @@ theorem wf_A (e : Expr) (hwf : e.wf = true) : A e := by
       · exact hd.1
     · simp only [startsAmpU, hno, Bool.false_and] at h; exact absurd h (by simp)
   | ref c ih =>
+    refine ⟨fun hwf => ?_, fun h => by simp [Expr.wfArgs] at h⟩
     simp only [Expr.wf, Bool.and_eq_true, Bool.not_eq_true'] at hwf
-    have hd := A_doc (pP c.prec precUnaryPrefix) c (ih hwf.1)
+    have hd := A_doc (pP c.prec precUnaryPrefix) c (ih.1 hwf.1)
     rw [A, print_ref]
     refine ⟨ampSafe_cons _ _ hd.1 (Or.inr ?_), fun _ => Or.inl rfl⟩
     cases hst : startsAmpU (doc (pP c.prec precUnaryPrefix) c) with
@@ -252,7 +269,8 @@ theorem wf_A (e : Expr) (hwf : e.wf = true) : A e := by
       · rw [hwf.2] at h2; exact absurd h2 (by simp)
       · omega
   | force c ih =>
-    have hc := ih (by simpa [Expr.wf] using hwf)
+    refine ⟨fun hwf => ?_, fun h => by simp [Expr.wfArgs] at h⟩
+    have hc := ih.1 (by simpa [Expr.wf] using hwf)
     have hd := A_doc (pP c.prec precUnaryPostfix) c hc
     have hns := doc_noAmpStart _ c hc (fun h => by
       have := pP_false_ge c.prec precUnaryPostfix h (by rw [precUnaryPostfix_eq]; omega)
@@ -261,9 +279,10 @@ theorem wf_A (e : Expr) (hwf : e.wf = true) : A e := by
     refine ⟨ampSafe_append _ _ hd.1 rfl rfl, fun h => ?_⟩
     rw [startsAmpU_append _ _ (doc_ne_nil _ _), hns] at h; exact absurd h (by simp)
   | binary op l r ihl ihr =>
+    refine ⟨fun hwf => ?_, fun h => by simp [Expr.wfArgs] at h⟩
     simp only [Expr.wf, Bool.and_eq_true] at hwf
-    have hdl := A_doc (pL op l) l (ihl hwf.1.1)
-    have hdr := A_doc (pR op r) r (ihr hwf.1.2)
+    have hdl := A_doc (pL op l) l (ihl.1 hwf.1.1)
+    have hdr := A_doc (pR op r) r (ihr.1 hwf.1.2)
     have hops : ampSafe (opToks op) = true ∧ startsAmpU (opToks op) = false ∧ opToks op ≠ [] := by
       unfold opToks; split
       · exact ⟨by decide, by decide, by simp⟩
@@ -274,17 +293,19 @@ theorem wf_A (e : Expr) (hwf : e.wf = true) : A e := by
     · rw [startsAmpU_append _ _ hops.2.2]; exact hops.2.1
     · rw [prec_binary]; have := prec_range op; omega
   | cast op c res t ih =>
+    refine ⟨fun hwf => ?_, fun h => by simp [Expr.wfArgs] at h⟩
     simp only [Expr.wf, Bool.and_eq_true] at hwf
-    have hd := A_doc (pP c.prec precCasting) c (ih hwf.1)
+    have hd := A_doc (pP c.prec precCasting) c (ih.1 hwf.1)
     rw [A, print_cast]
     refine ⟨ampSafe_append _ _ hd.1 (ampSafe_cons _ _ (ampSafe_spaced _ (ampSafe_printAnn res t))
       (Or.inr (startsAmpU_spaced _))) ?_, fun _ => Or.inr (by rw [prec_cast]; omega)⟩
     cases op <;> simp [startsAmpU, symSp]
   | cond c t e ihc iht ihe =>
+    refine ⟨fun hwf => ?_, fun h => by simp [Expr.wfArgs] at h⟩
     simp only [Expr.wf, Bool.and_eq_true] at hwf
-    have hdc := A_doc (decide (precTernary ≥ c.prec)) c (ihc hwf.1.1)
-    have hdt := A_doc (decide (precTernary ≥ t.prec)) t (iht hwf.1.2)
-    have hde := A_doc (decide (precTernary > e.prec)) e (ihe hwf.2)
+    have hdc := A_doc (decide (precTernary ≥ c.prec)) c (ihc.1 hwf.1.1)
+    have hdt := A_doc (decide (precTernary ≥ t.prec)) t (iht.1 hwf.1.2)
+    have hde := A_doc (decide (precTernary > e.prec)) e (ihe.1 hwf.2)
     rw [A, print_cond]
     simp only [List.append_assoc, List.cons_append]
     refine ⟨ampSafe_append _ _ hdc.1 (ampSafe_cons _ _ (ampSafe_append _ _ (ampSafe_spaced _ hdt.1)
@@ -296,7 +317,8 @@ theorem wf_A (e : Expr) (hwf : e.wf = true) : A e := by
       | cons a X => simp [spaced])]
     exact startsAmpU_spaced _
   | member o c n ih =>
-    have hc := ih (by simpa [Expr.wf] using hwf)
+    refine ⟨fun hwf => ?_, fun h => by simp [Expr.wfArgs] at h⟩
+    have hc := ih.1 (by simpa [Expr.wf] using hwf)
     have hd := A_doc (pM c) c hc
     have hns := doc_noAmpStart _ c hc (pM_false_ge c)
     rw [A, print_member]
@@ -304,15 +326,46 @@ theorem wf_A (e : Expr) (hwf : e.wf = true) : A e := by
       fun h => ?_⟩
     rw [startsAmpU_append _ _ (doc_ne_nil _ _), hns] at h; exact absurd h (by simp)
   | index c i ihc ihi =>
+    refine ⟨fun hwf => ?_, fun h => by simp [Expr.wfArgs] at h⟩
     simp only [Expr.wf, Bool.and_eq_true] at hwf
-    have hc := ihc hwf.1
+    have hc := ihc.1 hwf.1
     have hd := A_doc (pP c.prec precAccess) c hc
     have hns := doc_noAmpStart _ c hc (pP_false_access c.prec)
     rw [A, print_index]
     simp only [List.append_assoc, List.cons_append]
-    refine ⟨ampSafe_append _ _ hd.1 (ampSafe_cons _ _ (ampSafe_append _ _ (ihi hwf.2).1 rfl rfl) (Or.inl (by decide)))
+    refine ⟨ampSafe_append _ _ hd.1 (ampSafe_cons _ _ (ampSafe_append _ _ (ihi.1 hwf.2).1 rfl rfl) (Or.inl (by decide)))
       (by simp [startsAmpU, isSym, sym]), fun h => ?_⟩
     rw [startsAmpU_append _ _ (doc_ne_nil _ _), hns] at h; exact absurd h (by simp)
+  | invoke c args ihc iha =>
+    refine ⟨fun hwf => ?_, fun h => by simp [Expr.wfArgs] at h⟩
+    simp only [Expr.wf, Bool.and_eq_true] at hwf
+    have hc := ihc.1 hwf.1
+    have hd := A_doc (pP c.prec precAccess) c hc
+    have hns := doc_noAmpStart _ c hc (pP_false_access c.prec)
+    have hargs : ampSafe (printArgs args) = true := iha.2 hwf.2
+    rw [A, print_invoke]
+    simp only [List.append_assoc, List.cons_append]
+    refine ⟨ampSafe_append _ _ hd.1 (ampSafe_cons _ _ (ampSafe_append _ _ hargs rfl rfl) (Or.inl (by decide)))
+      (by simp [startsAmpU, isSym, sym]), fun h => ?_⟩
+    rw [startsAmpU_append _ _ (doc_ne_nil _ _), hns] at h; exact absurd h (by simp)
+  | argsNil => exact ⟨fun hwf => by simp [Expr.wf] at hwf, fun _ => rfl⟩
+  | argsCons label a rest iha ihr =>
+    refine ⟨fun hwf => by simp [Expr.wf] at hwf, fun h => ?_⟩
+    simp only [Expr.wfArgs, Bool.and_eq_true] at h
+    have ha := (iha.1 h.1.2).1
+    have hr : ampSafe (printArgs rest) = true := ihr.2 h.2
+    show ampSafe (printArgs (.argsCons label a rest)) = true
+    rw [printArgs_cons]
+    refine ampSafe_append _ _ ?_ ?_ ?_
+    · split
+      · exact ha
+      · exact ampSafe_cons _ _ (ampSafe_cons _ _ (ampSafe_spaced _ ha) (Or.inl (by decide))) (Or.inl (by simp [isSym]))
+    · split
+      · exact ampSafe_cons _ _ (ampSafe_spaced _ hr) (Or.inl (by decide))
+      · rfl
+    · split <;> simp [startsAmpU, isSym, sym]
+
+theorem wf_A (e : Expr) (hwf : e.wf = true) : A e := (wf_A_both e).1 hwf
 
 /-- the lexer's `& &` merging leaves the printed form of a well-formed expression unchanged -/
 theorem printE_eq (e : Expr) (hwf : e.wf = true) : printE e = printExpr e :=
